@@ -28,6 +28,7 @@ type histOpts struct {
 	peekAt    int
 	ntlPair   int // macro: Parse(NoTrailingLiterals) directly followed by another Parse
 	ntl       int // percentage of Parse calls with NoTrailingLiterals
+	ntlAllPct int // percentage of histories in which every Parse call carries NoTrailingLiterals
 	faults    bool
 	overReset bool // draw Reset data longer than BufferSize now and then
 	// tinyPct: percentage of histories in "small steps" mode: a text of a
@@ -59,7 +60,7 @@ func defaultHistOpts() histOpts {
 	return histOpts{
 		maxOps: 24, maxText: 600,
 		write: 8, fill: 6, readFrom: 4, parse: 12, drain: 6, shrink: 6,
-		resetNil: 1, resetDat: 1, ntl: 30, ntlPair: 3, tinyPct: 12, zeroPct: 30, uniformPct: 12, overReset: true,
+		resetNil: 1, resetDat: 1, ntl: 30, ntlAllPct: 6, ntlPair: 3, tinyPct: 12, zeroPct: 30, uniformPct: 12, overReset: true,
 	}
 }
 
@@ -107,6 +108,10 @@ func genParserHistory(t *rapid.T, x *parserExec, o histOpts) {
 	bsz := cc.BufferSize
 	if bsz > 1<<16 {
 		bsz = 1 << 16
+	}
+	if o.ntlAllPct > 0 && rapid.IntRange(0, 99).Draw(t, "ntlAll") < o.ntlAllPct {
+		// a caller that passes NoTrailingLiterals with every call
+		o.ntl = 100
 	}
 	tiny := o.tinyPct > 0 && rapid.IntRange(0, 99).Draw(t, "tiny") < o.tinyPct
 	var text []byte
